@@ -48,6 +48,10 @@ ASSUMPTIONS = [
     "exist: kernel 4 -> >= 7 coils, kernel 5 -> >= 6, kernel 6 -> >= 5; kernel 2-3 or 2 coils give errors of 0.1-0.6 "
     "because no null space exists), and in 3-D kernel_width = 4, calib_width = 12, coils >= 6, shape 12^3 (larger 3-D kernels cost "
     "> 3 s per case)",
+    "a third of the 2-D recovery cases multiply the image by a box of 40-70 % of each extent placed anywhere in the field of "
+    "view (an object smaller than the field of view: the eigenvalue map is then neither constant nor symmetric under "
+    "transposition); recovery is asserted there on the voxels of the central half of the field of view that lie at least 3 "
+    "voxels inside the box - the maps are not identifiable where there is no signal - and not at all when that set is empty",
     "smooth-map families: (a) per coil exp(-|x-c|^2/w) * exp(i(p0 + p.x)) on the grid [-1,1]^d with c ~ U(-1.25,1.25)^d, "
     "w ~ U(2.5,5), p ~ U(-1,1) rad; (b) sigpy.mri.sim.birdcage_maps with its default radius 1.5. Narrower bumps (w down to "
     "1.5, centres out to 1.5) were measured at up to 0.0195 error inside the same parameter domain and are excluded to keep "
@@ -102,7 +106,27 @@ def make_data(case):
         import sigpy.mri.sim as sim
         mps = np.asarray(sim.birdcage_maps([nc] + shape), np.complex128)
     img = rng.uniform(0.5, 1.5, shape) * np.exp(2j * np.pi * rng.uniform(0, 1, shape))
+    if case.get("object"):        # an object smaller than the field of view: no signal outside the box
+        box = np.zeros(shape)
+        box[tuple(slice(a, b) for a, b in case["object"])] = 1
+        img = img * box
     return (scale * cfft(mps * img, nd)).astype(case["dtype"]), mps
+
+
+OBJ_MARGIN = 3
+
+
+def recovery_region(case):
+    """Voxels where recovery is asserted: the interior of the field of view, and inside the object (eroded) when there is one."""
+    shape = case["shape"]
+    lo = [s // 4 for s in shape]
+    hi = [s - s // 4 for s in shape]
+    if case.get("object"):
+        lo = [max(l, a + OBJ_MARGIN) for l, (a, b) in zip(lo, case["object"])]
+        hi = [min(h, b - OBJ_MARGIN) for h, (a, b) in zip(hi, case["object"])]
+    if any(h <= l for l, h in zip(lo, hi)):
+        return None
+    return (slice(None),) + tuple(slice(l, h) for l, h in zip(lo, hi))
 
 
 def rec_min_coils(kw, nd):
@@ -154,6 +178,7 @@ def st_case(draw):
     elif scale == "huge":
         scale = 1e20 if dtype == "complex64" else 1e160
     params = {}
+    obj = None
     if cls == "defaults":
         fam = draw(st.sampled_from(["gauss", "bump", "bird"]))
         shape = [draw(st.integers(12, 24)) for _ in range(2)]
@@ -171,6 +196,14 @@ def st_case(draw):
             nc = draw(st.integers(rec_min_coils(kw, 2), 8))
         params["calib_width"] = draw(st.sampled_from(list(range(2 * kw + 4, min(shape) + 1))))
         params["kernel_width"] = kw
+        if len(shape) == 2 and draw(st.integers(0, 2)) == 0:
+            # object smaller than the field of view, anywhere in it: the eigenvalue map is then far from constant and not
+            # symmetric under a transposition of the axes
+            obj = []
+            for n in shape:
+                ln = draw(st.integers(max(2 * OBJ_MARGIN + 2, (2 * n + 4) // 5), (7 * n) // 10))
+                a = draw(st.integers(0, n - ln))
+                obj.append([a, a + ln])
         if draw(st.booleans()):
             params["thresh"] = 0.02
         c = _maybe(draw, st.one_of(st.sampled_from([0.0, 0.5, 0.9, 0.95]), st.floats(0.0, 0.95, allow_nan=False)))
@@ -200,7 +233,7 @@ def st_case(draw):
             if v is not None:
                 params[name] = v
     return {"cls": cls, "family": fam, "shape": shape, "nc": nc, "dtype": dtype, "seed": seed,
-            "scale": scale, "params": params, "plain_run": plain, "layout": draw(st.sampled_from(A.LAYOUTS))}
+            "scale": scale, "params": params, "plain_run": plain, "layout": draw(st.sampled_from(A.LAYOUTS)), "object": obj}
 
 
 # ------------------------------------------------------------------ check
@@ -301,9 +334,9 @@ def check_case(case):
             if amb:
                 r.label("crop-tie-skipped")
         # recovery on the well-posed sub-domain: every interior voxel (cropped voxels count as disagreement)
-        if okshape and rec:
+        sl = recovery_region(case) if rec else None
+        if okshape and rec and sl is not None:
             ref = np.abs(true_maps) / np.sqrt((np.abs(true_maps) ** 2).sum(0))
-            sl = (slice(None),) + tuple(slice(s // 4, s - s // 4) for s in shape)
             err = np.abs(np.abs(np.asarray(mps).astype(np.complex128)) - ref)[sl]
             err = np.where(np.isfinite(err), err, 1.0)
             worst = float(err.max())
@@ -332,6 +365,8 @@ def check_case(case):
         r.label("rectangular")
     if rec:
         r.label("recovery-asserted")
+    if case.get("object"):
+        r.label("object-smaller-than-fov")
     if ok and ncrop:
         r.label("cropped-all" if ncrop == A.prod(shape) else "cropped-some")
     elif ok:
